@@ -622,6 +622,8 @@ def run_midlife() -> dict:
     extra = {}
     for xf in CFG.get("extra_files") or []:
         extra[os.path.relpath(xf, spsdk.SPSDK_DATA_FOLDER)] = h(db.load_db_cfg_file(xf))
+    if CFG.get("queries") == "none":  # a short-lived process that only needed these data files
+        return {"digest": None, "parts": {}, "extra": extra, "damaged": done, "events": _NEV, "pid": os.getpid(), "opens": OPENS}
     parts = query_parts(CFG.get("queries", "full"), int(CFG.get("rot", 0)))
     return {"digest": digest_of(parts), "parts": parts, "extra": extra, "damaged": done, "events": _NEV, "pid": os.getpid(),
             "opens": OPENS}
